@@ -438,6 +438,52 @@ func vc07Limits(thorough bool) []vc07Limit {
 			})
 			return u, [2][]int{{0}, append([]int{0}, ids...)}, nil
 		}})
+	// --- page boundary x decodability: a shared chain up to LC h-1; the lower side adds one transaction at LC h (its height is
+	//     EXACTLY h); the other side adds d transactions at LC h and one at h+1. d = 5 decodes, d = 750 is more than one IBLT of
+	//     1024 buckets decodes, so the page-by-page fallback of handleTransactionSet runs with minLC = h ------------------------
+	boundary := map[string]*vc07Universe{} // shared by the two "which side is lower" variants
+	for _, h := range []int{511, 512, 513, 1023, 1024, 1025} {
+		for _, d := range []int{5, 750} {
+			for lower := 0; lower < 2; lower++ {
+				h, d, lower := h, d, lower
+				dec := "decodable"
+				if d > 700 {
+					dec = "undecodable"
+				}
+				out = append(out, vc07Limit{Name: fmt.Sprintf("lower-height-%d-%s-lower-%s", h, dec, []string{"A", "B"}[lower]),
+					Class: fmt.Sprintf("lower-height-%d-%s", h, dec),
+					Build: func() (*vc07Universe, [2][]int, []vc07Phase) {
+						prevs, c := vc07Chain([][]int{nil}, 0, h-1)
+						tip := c[len(c)-1]
+						prevs = append(prevs, []int{tip})
+						own := len(prevs) - 1
+						var fan []int
+						for i := 0; i < d; i++ {
+							prevs = append(prevs, []int{tip})
+							fan = append(fan, len(prevs)-1)
+						}
+						prevs = append(prevs, []int{fan[0]})
+						top := len(prevs) - 1
+						shared := append([]int{0}, c...)
+						var init [2][]int
+						init[lower] = append(append([]int{}, shared...), own)
+						init[1-lower] = append(append(append([]int{}, shared...), fan...), top)
+						key := fmt.Sprintf("%d-%d", h, d)
+						if len(boundary) > 1 {
+							for k := range boundary {
+								if k != key {
+									delete(boundary, k)
+								}
+							}
+						}
+						if boundary[key] == nil {
+							boundary[key] = vc07NewUniverse("boundary", prevs)
+						}
+						return boundary[key], init, nil
+					}})
+			}
+		}
+	}
 	// --- page boundaries: one side behind by exactly L transactions ----------------------------------------------------
 	for _, n := range []int{511, 512, 513, 1023, 1024, 1025} {
 		n := n
@@ -474,6 +520,21 @@ func TestVerifC07Limits(t *testing.T) {
 		return vc07LargeSig(l.Class, clause, devs)[len("C07|large:"):]
 	}
 
+	var lrc vc07LineReplay
+	if r.ReplayCase(&lrc) && lrc.Line != "" {
+		if mk, ok := vc07LineScenarios()[lrc.Line]; ok {
+			u, init := mk()
+			res := vc07RunLine(t, dir, u, init, rmax)
+			t.Logf("line %s: rounds=%d counts=%v clause=%q %s", lrc.Line, res.rounds, res.counts, res.clause, res.detail)
+			if res.clause != "" {
+				r.Violation("C07|limits:"+lrc.Line+"|"+res.clause+"|no-fault", lrc.Line+": "+res.detail, lrc)
+			}
+			r.Eval(lrc.Line)
+			r.States(1)
+			r.Transitions(res.steps)
+		}
+		return
+	}
 	var rc vc07LimitReplay
 	if r.ReplayCase(&rc) {
 		for _, l := range limits {
@@ -498,7 +559,7 @@ func TestVerifC07Limits(t *testing.T) {
 	}
 	r.Rule("structured limit-crossing scenarios on two connected nodes, transactions CREATED through the real State.Add while connected: bursts of 1/99/100/101/150 within one gossip " +
 		"interval (gossip queue and log limit 100) on one node, split over two intervals, on both nodes, and landing at every point of a running exchange; a transaction list of exactly " +
-		"max-1/max/max+1 bytes of one message and a three-message list; one side behind by 511/512/513/1023/1024/1025 (page size 512); connection churn (the stream drops for both / one side, 1 or 101 transactions created while disconnected and 0/1/101 after the reconnect; the stream dropping before every delivery of a running exchange), with and without node DIDs on the connections. Each scenario: scripted rounds, then the fair suffix; " +
+		"max-1/max/max+1 bytes of one message and a three-message list; one side behind by 511/512/513/1023/1024/1025 (page size 512); the lower of the two DAG heights exactly 511/512/513/1023/1024/1025 x a difference on the boundary page that one IBLT decodes (5) / does not (750) x which side is lower; private transactions relayed along a three-node line; connection churn (the stream drops for both / one side, 1 or 101 transactions created while disconnected and 0/1/101 after the reconnect; the stream dropping before every delivery of a running exchange), with and without node DIDs on the connections. Each scenario: scripted rounds, then the fair suffix; " +
 		"limit-crossing scenarios additionally with every single deviation of the listed kinds at every delivery position. A case is (scenario, deviation).")
 	r.Bound("limit_scenarios", len(limits))
 	r.Bound("R_max_allowed_limits", rmax)
@@ -525,7 +586,7 @@ func TestVerifC07Limits(t *testing.T) {
 		for _, kind := range kinds {
 			// one unit of work = (scenario, deviation kind); units are dealt round-robin
 			unit++
-			if (unit-1)%nsh != shard || r.Expired() || r.Violations() > 0 {
+			if ((unit-1)/2)%nsh != shard || r.Expired() || r.Violations() > 0 { // consecutive units (e.g. the two sides swapped) stay together
 				continue
 			}
 			if u == nil {
@@ -560,6 +621,25 @@ func TestVerifC07Limits(t *testing.T) {
 			for pos := 0; pos < positions && !r.Expired() && r.Violations() == 0; pos++ {
 				run([]vc07Dev{{Pos: pos, Kind: kind}})
 			}
+		}
+	}
+	// the three-node line (one unit of work per scenario)
+	lineNames := []string{"line-public", "line-private-payload-at-owner", "line-private-relay-already-synced"}
+	for _, name := range lineNames {
+		unit++
+		if ((unit-1)/2)%nsh != shard || r.Expired() || r.Violations() > 0 {
+			continue
+		}
+		u, init := vc07LineScenarios()[name]()
+		res := vc07RunLine(t, dir, u, init, rmax)
+		states += int64(res.rounds + 1)
+		trans += res.steps
+		r.Eval(name)
+		if res.clause != "" {
+			r.Violation("C07|limits:"+name+"|"+res.clause+"|no-fault", name+": "+res.detail, vc07LineReplay{Line: name})
+		} else {
+			r.Outcome(fmt.Sprintf("line-rounds:%d", res.rounds))
+			r.AddExtra(fmt.Sprintf("line_runs_converging_in_%d_rounds", res.rounds), 1)
 		}
 	}
 	r.Bound("R_max_observed_limits", maxR)
